@@ -69,6 +69,30 @@ def run_check(prop, tree, tier="quick", seed="1"):
             "first_lines": [ln[:400] for ln in lines[:4]], "stderr_tail": r.stderr[-300:] if r.returncode == 2 else ""}  # fmt: skip
 
 
+def recheck(name):
+    """only re-run the property's check against the patched tree (suite/demo were confirmed at
+    import time); updates meta["recheck"]"""
+    dst = os.path.join(ROOT, "seeded", name)
+    mp = os.path.join(dst, "meta.json")
+    meta = json.load(open(mp))
+    fresh_wt()
+    try:
+        r = sh("git", "-C", WT, "apply", "--whitespace=nowarn", os.path.join(dst, "patch.diff"))
+        if r.returncode != 0:
+            r = sh("git", "-C", WT, "apply", "-3", "--whitespace=nowarn", os.path.join(dst, "patch.diff"))
+        if r.returncode != 0:
+            meta["recheck"] = {"applies": False}
+        else:
+            res = run_check(meta["property"], WT, "quick")
+            meta["recheck"] = {"applies": True, "head": sh("git", "-C", "/repo", "rev-parse", "--short", "HEAD").stdout.strip(),
+                               "exit": res["exit"], "wall_s": res["wall_s"]}
+    finally:
+        drop_wt()
+    json.dump(meta, open(mp, "w"), indent=1)
+    print(name, meta["recheck"])
+    return meta["recheck"].get("exit") == 1
+
+
 def evaluate(name, src, prop, tier, all_checks):
     dst = os.path.join(ROOT, "seeded", name)
     os.makedirs(dst, exist_ok=True)
@@ -152,6 +176,11 @@ def main():
         if "--tier" in sys.argv:
             tier = sys.argv[sys.argv.index("--tier") + 1]
         return evaluate(name, src, prop, tier, "--all" in sys.argv)
+    if sys.argv[1] == "recheck":
+        names = sys.argv[2:] or sorted(os.listdir(os.path.join(ROOT, "seeded")))
+        bad = [n for n in names if os.path.exists(os.path.join(ROOT, "seeded", n, "meta.json")) and not recheck(n)]
+        print("not caught:", bad)
+        return 1 if bad else 0
     if sys.argv[1] == "rerun":
         names = sys.argv[2:] or sorted(os.listdir(os.path.join(ROOT, "seeded")))
         for n in names:
